@@ -401,6 +401,28 @@ type vC01Rig struct {
 	overflow   bool
 	stepObs    bool
 	wflTimeout time.Duration
+	gmu        sync.Mutex
+	gates      map[int]chan struct{}
+}
+
+func (r *vC01Rig) closeGate(k int) {
+	r.gmu.Lock()
+	if r.gates == nil {
+		r.gates = map[int]chan struct{}{}
+	}
+	if r.gates[k] == nil {
+		r.gates[k] = make(chan struct{})
+	}
+	r.gmu.Unlock()
+}
+
+func (r *vC01Rig) openGate(k int) {
+	r.gmu.Lock()
+	if ch := r.gates[k]; ch != nil {
+		close(ch)
+		delete(r.gates, k)
+	}
+	r.gmu.Unlock()
 }
 
 func (r *vC01Rig) setCommitter(i int) { r.cmu.Lock(); r.committer = i; r.cmu.Unlock() }
@@ -524,9 +546,12 @@ func (r *vC01Rig) stop(n *vC01Node) {
 }
 
 func (r *vC01Rig) shutdown() {
-	// release held snapshots first so that nothing blocks
+	// release held snapshots and gates first so that nothing blocks
 	for k := range r.hold {
 		r.release(k)
+	}
+	for k := 0; k < len(r.nodes); k++ {
+		r.openGate(k)
 	}
 	for _, n := range r.nodes {
 		r.stop(n)
@@ -831,6 +856,16 @@ type vC01Guard struct {
 }
 
 func (g *vC01Guard) Apply(l *hraft.Log) (ret interface{}) {
+	// a closed gate models a slow FSM: the entry stays in hashicorp/raft's FSM queue (the rig mutex is not held)
+	g.rig.gmu.Lock()
+	gate := g.rig.gates[g.node.idx]
+	g.rig.gmu.Unlock()
+	if gate != nil {
+		select {
+		case <-gate:
+		case <-time.After(20 * time.Second):
+		}
+	}
 	g.rig.mu.Lock()
 	defer g.rig.mu.Unlock()
 	if g.dead || g.node.crashed {
